@@ -1,21 +1,26 @@
 #!/bin/bash
-# tools/seed_eval.sh <ID> <check ids...>: confirm a sub-agent's seeded change in its scratch worktree /tmp/seeds/<ID>,
-# run the named checks against it, and store patch + demo + meta under /verif/seeded/<ID>/ (nothing is committed to /repo).
+# tools/seed_eval.sh <ID> <check ids...>: confirm a sub-agent's seeded change in its scratch worktree $SEEDS_DIR/<ID>
+# (default /tmp/seeds), run the named checks against it, and store patch + demo + meta under /verif/seeded/<ID>$SEED_SUFFIX/.
+# Nothing is committed to /repo. (git stash is shared between worktrees: the unchanged tree is reached with git apply -R.)
 set -u
 ID=$1; shift
-W=/tmp/seeds/$ID
-OUT=/verif/seeded/$ID
+SD=${SEEDS_DIR:-/tmp/seeds}
+W=$SD/$ID
+OUT=/verif/seeded/$ID${SEED_SUFFIX:-}
 mkdir -p $OUT
 cd $W || exit 2
 git diff > $OUT/patch.diff
-cp tests/seed_demo.rs $OUT/seed_demo.rs 2>/dev/null
-mv tests/seed_demo.rs /tmp/seeds/$ID.demo.rs
+demo_cmd="cargo test --offline ${SEED_FEATURES:-} --test seed_demo"
+if [ -f seed_demo.sh ]; then cp seed_demo.sh $OUT/; demo_cmd="./seed_demo.sh"; fi
+[ -f tests/seed_demo.rs ] && cp tests/seed_demo.rs $OUT/seed_demo.rs
+[ -d tests/seed_demo_crate ] && { rm -rf $OUT/seed_demo_crate; cp -r tests/seed_demo_crate $OUT/; rm -rf $OUT/seed_demo_crate/target $OUT/seed_demo_crate/Cargo.lock; }
+[ -f tests/seed_demo.rs ] && mv tests/seed_demo.rs $SD/$ID.demo.rs
 suite=$(cargo test --workspace --no-fail-fast --offline 2>&1 | grep -E "^test result" | awk '{p+=$4; f+=$6} END {print p" passed, "f" failed"}')
-mv /tmp/seeds/$ID.demo.rs tests/seed_demo.rs
-with=$(cargo test --offline ${SEED_FEATURES:-} --test seed_demo 2>&1 | grep -E "^test result|^error(\[|:)" | head -2 | tr '\n' ' ')
-git diff > /tmp/seeds/$ID.own.patch; git apply -R /tmp/seeds/$ID.own.patch   # (git stash is shared between worktrees: not safe next to running agents)
-without=$(cargo test --offline ${SEED_FEATURES:-} --test seed_demo 2>&1 | grep -E "^test result|^error(\[|:)" | head -2 | tr '\n' ' ')
-git apply /tmp/seeds/$ID.own.patch
+[ -f $SD/$ID.demo.rs ] && mv $SD/$ID.demo.rs tests/seed_demo.rs
+with=$($demo_cmd 2>&1; echo "exit=$?"); with=$(echo "$with" | grep -E "^test result|^error(\[|:)|^exit=|FAILED|identical" | head -3 | tr '\n' ' ')
+git diff > $SD/$ID.eval.patch; git apply -R $SD/$ID.eval.patch
+without=$($demo_cmd 2>&1; echo "exit=$?"); without=$(echo "$without" | grep -E "^test result|^error(\[|:)|^exit=|FAILED|identical" | head -3 | tr '\n' ' ')
+git apply $SD/$ID.eval.patch
 echo "suite with change: $suite"; echo "demo with change: $with"; echo "demo without change: $without"
 cd /verif
 results=""
@@ -25,12 +30,13 @@ for c in "$@"; do
   echo "check $c exit=$code $line"
   results="$results{\"check\":\"$c\",\"exit\":$code,\"line\":$(python3 -c 'import json,sys; print(json.dumps(sys.argv[1]))' "$line")},"
 done
-python3 - "$ID" "$suite" "$with" "$without" "[${results%,}]" <<'PY'
+python3 - "$OUT" "$ID" "$suite" "$with" "$without" "[${results%,}]" <<'PY'
 import json,sys
-id,suite,w,wo,res=sys.argv[1:6]
-meta={"property":id,"suite_with_change":suite,"demo_with_change":w.strip(),"demo_without_change":wo.strip(),"checks_run":json.loads(res),
-      "ran":"tools/seed_eval.sh in the sub-agent's scratch worktree (suite with change, demo with/without change, then ./check with VERIF_REPO pointing at the worktree)"}
-p=f"/verif/seeded/{id}/meta.json"
+out,id,suite,w,wo,res=sys.argv[1:7]
+meta={"property":id,"breaks_property":id,"suite_with_change":suite,"demo_with_change":w.strip(),"demo_without_change":wo.strip(),"checks_run_first_pass":json.loads(res),
+      "origin":"independent sub-agent given only the property text and its own scratch worktree",
+      "ran":"tools/seed_eval.sh in the sub-agent's scratch worktree (suite with change, demo with/without change via git apply -R, then ./check with VERIF_REPO pointing at the worktree)"}
+p=f"{out}/meta.json"
 try: old=json.load(open(p))
 except Exception: old={}
 old.update(meta); json.dump(old,open(p,"w"),indent=1)
